@@ -37,6 +37,7 @@ import PyYetiVerif.Props.C11e
 #print axioms PyYetiVerif.C11.op4_variant_dense_matrix
 #print axioms PyYetiVerif.C11.mem_puts_iff
 #print axioms PyYetiVerif.C11.dct_keeps_last
+#print axioms PyYetiVerif.C11.namelist_is_filter
 #print axioms PyYetiVerif.C11.skip_positions_ascii
 #print axioms PyYetiVerif.C11.dir_is_iterated_skip
 #print axioms PyYetiVerif.C11.dir_matches_load_ascii
